@@ -284,6 +284,54 @@ def commitEditLog (m : Mem) (fid : Int) (logs : List Log) : Option (Mem × List 
   | none => none
   | some vs' => some ({ m with vs := vs' }, [FsOp.appendRec m.journal (marshal el)])
 
+/-! ### CommitFamilyEditLog as the atomic steps the code has
+
+`CommitFamilyEditLog` runs `vs.GetFamilyVersion(family)` (read lock, released), then takes `vs.mutex`
+and does everything else inside that critical section. A concurrent execution therefore sees a commit
+as two steps: `commitRead` (what has been read when the goroutine reaches `vs.mutex.Lock()`) and
+`commitLocked` (the critical section). Which of the two state reads — the next file number that is
+logged, the family's current version that is cloned — happen before the lock is a regenerated fact
+(`Generated.C01.commitBeforeLockCalls` / `commitUnderLockCalls`); the model takes it as the parameter
+`before`, so that the interleaving theorems are about the split the source has NOW. -/
+
+/-- what a committer holds when it reaches `vs.mutex.Lock()` -/
+structure Pre where
+  next : Option Int          -- `some n`: nextFileNumber was read (and added to the edit log) before the lock
+  ver : Option Version       -- `some v`: the family's current version was taken before the lock
+  deriving DecidableEq, Repr
+
+def readNextStep : String := "nextFileNumber.Load"
+def readVersionStep : String := "familyVersion.GetSnapshot"
+
+/-- calls of CommitFamilyEditLog before `vs.mutex.Lock()`, in code order -/
+def commitBeforeLockSteps : List String := ["vs.GetFamilyVersion"]
+/-- calls of CommitFamilyEditLog after `vs.mutex.Lock()` (under the lock until return), in code order -/
+def commitUnderLockSteps : List String :=
+  [readNextStep, "editLog.Add", "vs.persistEditLogs", readVersionStep, "editLog.apply", "familyVersion.appendVersion"]
+
+/-- the part of CommitFamilyEditLog before `vs.mutex.Lock()`, for a given list of calls made there -/
+def commitRead (before : List String) (m : Mem) (fid : Int) : Pre :=
+  ⟨if before.contains readNextStep then some m.vs.next else none,
+   if before.contains readVersionStep then m.vs.verOf fid else none⟩
+
+/-- familyVersion.appendVersion on the model's one-version-per-family state -/
+def VS.setVer (s : VS) (fid : Int) (v : Version) : VS :=
+  { s with fams := s.fams.map (fun f => if f.id = fid then { f with ver := v } else f) }
+
+/-- the critical section of CommitFamilyEditLog: add NextFileNumber (the value read before the lock if
+there is one, else the current one), append one synced record, apply the edit log to a clone of the
+version taken before the lock if there is one, else of the current version, install it. -/
+def commitLocked (m : Mem) (fid : Int) (logs : List Log) (pre : Pre) : Option (Mem × List FsOp) :=
+  if logs = [] then some (m, []) else
+  if !m.vs.hasFam fid then none else
+  let el : EditLog := ⟨fid, logs ++ [.nextFileNumber (pre.next.getD m.vs.next)]⟩
+  let base := match pre.ver with
+    | some v => m.vs.setVer fid v
+    | none => m.vs
+  match applyEL base el with
+  | none => none
+  | some vs' => some ({ m with vs := vs' }, [FsOp.appendRec m.journal (marshal el)])
+
 /-- the step names of storeFlusher.Commit, in code order -/
 def flushCommitSteps : List String :=
   ["builder.Close", "version.CreateNewFile", "version.CreateSequence", "version.CreateNewRollupFile", "family.commitEditLog"]
